@@ -139,7 +139,7 @@ func (w *c02World) genPattern(rng *kit.Rand, polNS string) string {
 		// patterns that straddle the mount boundary
 		return kit.Pick(rng, []string{strings.TrimSuffix(rel, "/") + "*", strings.TrimSuffix(rel, "/"), rel, rel + "+"})
 	}
-	tails := []string{"data/a", "data/b", "data/c", "data/a/b", "data/ab", "data/*", "data/a*", "data/+", "data/+/b", "data/+/*", "*", "root/*", "root/r", "root/+", "lease/*", "lease/l", "+/a", "+/+", "data/", "data/a/", "d*"}
+	tails := []string{"data/a", "data/b", "data/c", "data/a/b", "data/ab", "data/*", "data/a*", "data/+", "data/+/b", "data/+/*", "*", "root/*", "root/r", "root/+", "root/*", "root/r", "root/a", "r*", "lease/*", "lease/l", "+/a", "+/+", "+/r", "data/", "data/a/", "d*"}
 	return rel + kit.Pick(rng, tails)
 }
 
@@ -465,7 +465,7 @@ func c02Instantiate(rng *kit.Rand, absPat string) string {
 	}
 	s := strings.Join(parts, "/")
 	if glob {
-		s += kit.Pick(rng, []string{"", "a", "b", "ab", "a/b", "data/a", "data/b", "root/r", "c/", "lease/l", "x/y/z"})
+		s += kit.Pick(rng, []string{"", "a", "b", "ab", "a/b", "data/a", "data/b", "root/r", "root/a", "c/", "lease/l", "x/y/z"})
 	}
 	return s
 }
@@ -586,8 +586,15 @@ func (x *c02Run) genReq(tok *c02Tok, directed bool, from *c02Policy) *c02Req {
 	if (op == "list" || op == "scan") && !strings.HasSuffix(abs, "/") && rng.Chance(5, 6) {
 		abs += "/"
 	}
+	// mostly ask for operations the backend declares on that path
+	if _, _, pi := w.locate(abs); pi >= 0 && !strings.Contains(" "+c02Patterns[pi].ops+" ", " "+op+" ") && rng.Chance(3, 4) {
+		op = kit.Pick(rng, strings.Fields(strings.Replace(c02Patterns[pi].ops, "create", "update", 1)))
+		if (op == "list" || op == "scan") && !strings.HasSuffix(abs, "/") {
+			abs += "/"
+		}
+	}
 	// hostile forms
-	if rng.Chance(1, 5) {
+	if rng.Chance(1, 6) {
 		switch rng.Intn(9) {
 		case 0:
 			abs += "/"
@@ -923,6 +930,7 @@ func (x *c02Run) mutate() {
 		tok   *c02Tok
 		apply func()
 		pol   *c02Policy
+		mnt   *c02Mount
 	}
 	var cs []cand
 	// policy changes
@@ -1043,7 +1051,7 @@ func (x *c02Run) mutate() {
 	if len(w.Mounts) > 0 {
 		m := kit.Pick(rng, w.Mounts)
 		if m.Mounted {
-			cs = append(cs, cand{name: "unmount", tok: admin(m.NS), apply: func() {
+			cs = append(cs, cand{name: "unmount", tok: admin(m.NS), mnt: m, apply: func() {
 				p := "sys/mounts/" + strings.TrimSuffix(m.Path, "/")
 				if m.Auth {
 					p = "sys/" + strings.TrimSuffix(m.Path, "/")
@@ -1060,7 +1068,7 @@ func (x *c02Run) mutate() {
 				x.digest = x.storageDigest()
 			}})
 		} else {
-			cs = append(cs, cand{name: "mount-again", tok: admin(m.NS), apply: func() {
+			cs = append(cs, cand{name: "mount-again", tok: admin(m.NS), mnt: m, apply: func() {
 				x.mount(m)
 				x.digest = x.storageDigest()
 			}})
@@ -1072,12 +1080,9 @@ func (x *c02Run) mutate() {
 	c := kit.Pick(rng, cs)
 	var probe *c02Req
 	if strings.HasPrefix(c.name, "unmount") || strings.HasPrefix(c.name, "mount") {
-		var m *c02Mount
-		for _, mm := range w.Mounts {
-			m = mm
-			if rng.Chance(1, 3) {
-				break
-			}
+		m := c.mnt
+		if rng.Chance(1, 5) {
+			m = kit.Pick(rng, w.Mounts) // a sibling must be unaffected
 		}
 		probe = &c02Req{Tok: c.tok, Op: kit.Pick(rng, []string{"read", "update", "list"}), Why: "mount probe"}
 		full := m.Abs + kit.Pick(rng, []string{"data/a", "data/b", "root/r", "unauth/u"})
@@ -1185,8 +1190,8 @@ func TestVerif_C02_Requests(t *testing.T) {
 	shard, _ := kit.Shard()
 	r := kit.NewResult(t, "c02-requests", seed, "generated namespace trees (depth<=3) x recording secrets/auth mounts at nested and sibling-prefix paths x generated ACL policies (exact, trailing-*, + segments, deny, sudo) x tokens in the states {absent, garbage, one character / one byte (head, middle, signature) flipped, truncated signature, revoked, expired, exhausted, last use, CIDR-bound, disabled entity, batch, batch mutated / expired / parent revoked, other namespace, root}; every request (plain, rule-directed and hostile forms: trailing and doubled slashes, ./.. segments, mount-boundary, namespace by header or by path prefix, unknown namespaces, restricted sys APIs in child namespaces, internal operations) is judged by the reference authoriser and compared with handler log, response class, tagged physical writes and a digest of the recording mounts' storage; configuration changes (policy rewrite/delete/recreate, token revocation, entity disable / entity policies, unmount / mount) are bracketed by the same request before and immediately after. A case is non-trivial when (a) a request was refused only because of the token state while its policies allow it, (b) an authorised request reached the handler, or (c) a mutation flipped the verdict of the very next request; distinct by (state, op, mount, backend path)")
 	defer r.Write(t)
-	ntopo := kit.N(3, 5)
-	nreq := kit.N(600, 2000)
+	ntopo := kit.N(10, 12)
+	nreq := kit.N(700, 2000)
 	for i := 0; i < ntopo; i++ {
 		caseID := fmt.Sprintf("topo:%d:%d", shard, i)
 		if !kit.WantCase(caseID) {
